@@ -43,7 +43,7 @@ type Leaf struct {
 	Phys     int
 	Len      int // FLBA length
 	Order    Order
-	Bits     int  // logical integer width (8,16,32,64) for int/uint ids, else 0
+	Bits     int // logical integer width (8,16,32,64) for int/uint ids, else 0
 	Unsigned bool
 }
 
